@@ -4,6 +4,7 @@ from ..rules import forth
 
 
 def run(rep, fb, tier):
+    from ..rules import lints as _lx
     rep.assumptions += STD_ASSUME + ["macros (CODE_*, READ_*) are read from the #define lines of ForthMachine.cpp with a comment/string-aware scanner; clang has already expanded them in the AST"]
     rep.declined += ["arithmetic semantics beyond operator identity (floor-division identities, wrap-around at the machine width)",
                      "determinism across arbitrary run/step/pause segmentations as a behavioural statement (only the structural epilogue clause is decided)",
@@ -17,6 +18,11 @@ def run(rep, fb, tier):
     methodrules.rule_forth_output_alias(rep, fb)
     forth.rule_forth_input(rep, fb)
     forth.rule_forth_width(rep, fb)
+    forth.rule_forth_operand_guards(rep, fb)
+    _lx.rule_shift_literal(rep, fb)
+    _lx.rule_growth_progress(rep, fb)
     from ..rules import lints
     lints.rule_bit_accumulator_reset(rep, fb)
+    from ..rules import lints as _lx
+    _lx.rule_whole_token(rep, fb)
     rep.units = fb.units
